@@ -91,6 +91,9 @@ struct Outstanding {
     /// identical retransmissions seen so far (unsolicited)
     retries: u32,
     is_null: bool,
+    /// a DISABLE_UNSOLICITED that disabled nothing was answered at this time during the wait: the series may have been
+    /// cancelled then, or may go on
+    maybe_cancelled_at: Option<u64>,
 }
 
 pub struct Findings {
@@ -127,6 +130,8 @@ struct Sess<'a> {
     /// indication was pending: the statement does not say whether that ends it, so the bit is not judged
     broadcast_uncertain: bool,
     broadcast_reported: bool,
+    /// sequence number of the solicited response built last
+    last_sol_seq: Option<u8>,
     app_iin: u8,
     unconfirmed_carrier_seen: bool,
     /// an unsolicited series ended without confirmation since the last response was judged
@@ -136,12 +141,18 @@ struct Sess<'a> {
     deferred_read_seq: Option<u8>,
     /// the request sent last asks for static data (an integrity READ)
     static_wanted: bool,
+    /// the READ sent last names event variations itself (gNNvM with M > 0)
+    variation_requested: bool,
     /// sequence number of a DISABLE_UNSOLICITED request whose reply has not been seen yet
     disable_seq: Option<u8>,
+    /// the DISABLE_UNSOLICITED answered last took an enabled class away
+    disable_had_effect: bool,
     /// confirm modes of broadcasts sent but not yet seen processed (OutstationInformation::broadcast_received)
     sent_broadcasts: std::collections::VecDeque<u8>,
     // --- C14 model ---
     startup_done: bool,
+    /// an empty start-up response was confirmed while it was open whether its series was still going on
+    startup_maybe_done: bool,
     /// classes enabled for unsolicited reporting (bit0 = class 1), as acknowledged by the outstation
     enabled: u8,
     /// ENABLE/DISABLE requests whose reply has not been seen yet: (seq, enable, mask)
@@ -434,6 +445,10 @@ impl<'a> Sess<'a> {
                     o.retries += 1;
                     let (retries, is_null, seq) = (o.retries, o.is_null, o.seq);
                     o.t_tx = t;
+                    if o.maybe_cancelled_at.take().is_some() {
+                        // the series goes on
+                        o.uncertain = false;
+                    }
                     label(&mut self.f, "unsol_retry");
                     if !is_null {
                         label(&mut self.f, "data_series_retried");
@@ -507,6 +522,26 @@ impl<'a> Sess<'a> {
             for o in &h.objects {
                 match self.match_event(h.g, h.v, o.index.unwrap_or(0), &o.data, cto, &ids) {
                     Ok(id) => {
+                        // "with exactly the ... time they were recorded with": unless the master asked for a variation
+                        // itself, an event travels in the variation configured for its point - a variation an earlier,
+                        // unconfirmed READ had asked for must not stick to it
+                        if h.g != 111 && (unsol || !self.variation_requested) {
+                            let configured = self.events.get(&id).and_then(|e| {
+                                self.case
+                                    .points
+                                    .iter()
+                                    .find(|p| p.ty == e.rec.ty && p.index == e.rec.index)
+                                    .map(|p| p.evar)
+                            });
+                            if let Some(cv) = configured {
+                                if cv != h.v {
+                                    self.fail03(
+                                        "L5-event-not-in-its-configured-variation",
+                                        format!("fragment #{no} ({}) reports event {id} as g{}v{} although its point is configured for variation {cv} and the request names no variation", if unsol { "unsolicited" } else { "solicited" }, h.g, h.v),
+                                    );
+                                }
+                            }
+                        }
                         if ids.contains(&id) {
                             self.fail03(
                                 "L3-event-twice-in-one-fragment",
@@ -548,6 +583,9 @@ impl<'a> Sess<'a> {
         // a newly built response of one kind ends the previous series of that kind; the answer to a READ that
         // had been deferred behind an unsolicited response shows that this unsolicited series is over as well
         self.expire_at(t);
+        if !unsol {
+            self.last_sol_seq = Some(f.seq);
+        }
         if unsol {
             self.judge_new_unsolicited(&f, &ids, t);
         } else if f.fir {
@@ -558,6 +596,7 @@ impl<'a> Sess<'a> {
                     if enable {
                         self.enabled |= mask;
                     } else {
+                        self.disable_had_effect = self.enabled & mask != 0;
                         self.enabled &= !mask;
                     }
                 }
@@ -590,7 +629,7 @@ impl<'a> Sess<'a> {
                     self.f.nontrivial_c14 = true;
                     if !o.is_null {
                         // the series was given up (timed out) in favour of the deferred READ
-                        self.unsol_failed_at = Some(t);
+                        self.unsol_failed_at = Some(o.maybe_cancelled_at.unwrap_or(t));
                     }
                     if !self.frags[o.frag].ids.is_empty() {
                         self.unconfirmed_carrier_seen = true;
@@ -618,6 +657,7 @@ impl<'a> Sess<'a> {
                 uncertain: false,
                 retries: 0,
                 is_null: f.objects.is_empty(),
+                maybe_cancelled_at: None,
             });
         } else if f.con {
             self.out_sol = Some(Outstanding {
@@ -627,6 +667,7 @@ impl<'a> Sess<'a> {
                 uncertain: built_in_unsol_wait,
                 retries: 0,
                 is_null: false,
+                maybe_cancelled_at: None,
             });
         }
     }
@@ -636,7 +677,12 @@ impl<'a> Sess<'a> {
         let is_null = f.objects.is_empty();
         if let Some(o) = self.out_unsol.clone() {
             // the previous response is neither confirmed nor (by time) exhausted
-            if !o.uncertain {
+            if let Some(tc) = o.maybe_cancelled_at {
+                // the series was cancelled by the DISABLE_UNSOLICITED after all
+                if !o.is_null {
+                    self.unsol_failed_at = Some(tc);
+                }
+            } else if !o.uncertain {
                 self.fail14(
                     "U3-new-unsolicited-while-previous-outstanding",
                     format!("unsolicited seq {} sent at t={t} although seq {} (last sent at {}) was neither confirmed nor timed out", f.seq, o.seq, o.t_tx),
@@ -654,6 +700,11 @@ impl<'a> Sess<'a> {
                     ),
                 );
             }
+        }
+        if !self.startup_done && self.startup_maybe_done {
+            // what comes next shows whether that confirmation counted
+            self.startup_maybe_done = false;
+            self.startup_done = !is_null;
         }
         if !self.startup_done && !is_null {
             self.fail14("U1-data-before-null-confirmed", format!("unsolicited seq {} carries objects although no empty start-up response has been confirmed yet", f.seq));
@@ -907,6 +958,7 @@ impl<'a> Sess<'a> {
                         // addressed request does, start-up responses included); a later retransmission of that series is
                         // judged as a new unsolicited response
                         label(&mut self.f, "broadcast_disable");
+                        self.disable_had_effect = self.enabled != 0;
                         self.enabled = 0;
                         self.pending_enable.retain(|x| !x.1);
                         self.disable_answered();
@@ -1059,7 +1111,9 @@ impl<'a> Sess<'a> {
                     label(&mut self.f, "unsol_series_timed_out");
                 }
                 if !o.is_null {
-                    self.unsol_failed_at = Some(o.t_tx + CONFIRM_TIMEOUT);
+                    // (a series that may have been cancelled earlier: the earlier end is the lenient one)
+                    self.unsol_failed_at =
+                        Some(o.maybe_cancelled_at.unwrap_or(o.t_tx + CONFIRM_TIMEOUT));
                     self.f.nontrivial_c14 = true;
                 }
                 let (seq, t_end) = (o.seq, o.t_tx + CONFIRM_TIMEOUT);
@@ -1122,7 +1176,19 @@ impl<'a> Sess<'a> {
         }
     }
 
-    fn note_confirm_sent(&mut self, confirmed: Option<(usize, bool)>) {
+    fn note_confirm_sent(&mut self, confirmed: Option<(usize, bool)>, solicited: bool, seq: u8) {
+        // a CONFIRM that carries the sequence number of no response of its kind confirms nothing: "until confirmed"
+        let last = if solicited {
+            self.last_sol_seq
+        } else {
+            self.last_unsol_seq
+        };
+        if confirmed.is_none() && last.is_some() && last != Some(seq & 0x0F) {
+            if self.broadcast_pending == Some(1) && self.broadcast_reported {
+                label(&mut self.f, "stray_confirm_while_mandatory_broadcast_reported");
+            }
+            return;
+        }
         // a confirmation can only acknowledge an indication that some response has reported
         if self.broadcast_pending == Some(1) && self.broadcast_reported {
             match confirmed {
@@ -1142,9 +1208,26 @@ impl<'a> Sess<'a> {
     /// out), the harness decides this by observation: the reply to the DISABLE request is seen while an unsolicited
     /// response is outstanding.
     fn disable_answered(&mut self) {
+        let had_effect = std::mem::replace(&mut self.disable_had_effect, true);
+        if !had_effect {
+            // "DISABLE_UNSOLICITED stops it": one that names no enabled class has nothing to stop. Whether the series that
+            // awaits its confirmation is cancelled all the same or goes on is left open; what follows shows which
+            if let Some(o) = &mut self.out_unsol {
+                o.uncertain = true;
+                if o.maybe_cancelled_at.is_none() {
+                    o.maybe_cancelled_at = Some(self.rig.now_ms());
+                }
+                if !o.is_null {
+                    self.delay_uncertain_until =
+                        Some(self.rig.now_ms() + RETRY_DELAY + CONFIRM_TIMEOUT);
+                }
+                label(&mut self.f, "disable_without_effect_during_unsol_wait");
+            }
+            return;
+        }
         if let Some(o) = self.out_unsol.take() {
             if !o.is_null {
-                self.unsol_failed_at = Some(self.rig.now_ms());
+                self.unsol_failed_at = Some(o.maybe_cancelled_at.unwrap_or(self.rig.now_ms()));
             }
             if !self.frags[o.frag].ids.is_empty() {
                 self.unconfirmed_carrier_seen = true;
@@ -1180,6 +1263,7 @@ impl<'a> Sess<'a> {
                 let f = self.read_request(kind);
                 self.note_request_sent(func::READ);
                 self.static_wanted = matches!(kind, ReadKind::Integrity(_));
+                self.variation_requested = matches!(kind, ReadKind::Specific(..));
                 self.deferred_read_seq = if self.out_unsol.is_some() {
                     Some(f.seq)
                 } else {
@@ -1199,7 +1283,7 @@ impl<'a> Sess<'a> {
                 } else {
                     label(&mut self.f, "wrong_or_stale_confirm");
                 }
-                self.note_confirm_sent(confirmed);
+                self.note_confirm_sent(confirmed, true, seq);
                 // a solicited confirm while an unsolicited response is outstanding must not release anything either
                 self.rig.send(&Fragment::confirm(seq, false));
                 self.settle_and_process(confirmed).await;
@@ -1219,6 +1303,8 @@ impl<'a> Sess<'a> {
                             self.unsol_failed_at = None;
                         }
                         was_deferred = self.deferred_read_seq;
+                    } else if self.out_unsol.as_ref().map(|o| o.is_null).unwrap_or(false) {
+                        self.startup_maybe_done = true;
                     } else if self.out_unsol.as_ref().map(|o| !o.is_null).unwrap_or(false)
                         && !self.frags[frag].ids.is_empty()
                     {
@@ -1230,7 +1316,7 @@ impl<'a> Sess<'a> {
                 } else {
                     label(&mut self.f, "wrong_or_stale_confirm");
                 }
-                self.note_confirm_sent(confirmed);
+                self.note_confirm_sent(confirmed, false, seq);
                 self.rig.send(&Fragment::confirm(seq, true));
                 self.settle_and_process(confirmed).await;
                 if let Some(rs) = was_deferred {
@@ -1463,15 +1549,19 @@ pub async fn run_history(case: &Case, c13_ops: bool) -> Findings {
         broadcast_pending: None,
         broadcast_uncertain: false,
         broadcast_reported: false,
+        last_sol_seq: None,
         app_iin: 0,
         unconfirmed_carrier_seen: false,
         unsol_series_failed: false,
         cap: case.event_buffer,
         deferred_read_seq: None,
         static_wanted: false,
+        variation_requested: false,
         disable_seq: None,
+        disable_had_effect: true,
         sent_broadcasts: Default::default(),
         startup_done: false,
+        startup_maybe_done: false,
         enabled: 0,
         pending_enable: Default::default(),
         unsol_failed_at: None,
@@ -1552,6 +1642,15 @@ pub fn case_strategy(c13: bool, max_ops: usize) -> BoxedStrategy<Case> {
         (1, Just(Op::Reconnect).boxed()),
         (1, Just(Op::Preempt).boxed()),
     ];
+    if !c13 {
+        // requests by broadcast (one in four is a DISABLE_UNSOLICITED) abort and cancel like addressed ones
+        ops.push((
+            1,
+            (0u8..3, any::<u8>())
+                .prop_map(|(m, k)| Op::Broadcast(m, k))
+                .boxed(),
+        ));
+    }
     if c13 {
         ops.push((
             2,
